@@ -156,3 +156,89 @@ def open_options(f, opn):
         if len(v) > 1:
             raise ShapeUnrecognised("%s: OpenOptions::%s is applied %d times before the open" % (f.path, k, len(v)))
     return opts
+
+
+# ---- byte / character unit discipline ---------------------------------------------------------------------------
+# A str is indexed by byte offsets and iterated by characters.  A quantity that is definitely a byte count (a
+# length, a find/match offset, a char_indices position) used to step a character iterator, or a definite character
+# count used as a byte offset, is a unit error that ASCII-only inputs never show.
+
+BYTE_SOURCES = ("core::str::<impl str>::len", "alloc::string::String::len", "core::str::<impl str>::find", "core::str::<impl str>::rfind",
+                "core::char::methods::<impl char>::len_utf8", "core::str::<impl str>::floor_char_boundary", "core::str::<impl str>::ceil_char_boundary")
+CHAR_STEPPERS = ("nth", "skip", "take", "advance_by", "step_by", "nth_back")
+BYTE_SINKS = ("core::str::<impl str>::split_at", "alloc::string::String::truncate", "core::str::<impl str>::is_char_boundary", "alloc::string::String::split_off",
+              "core::str::<impl str>::split_at_mut", "alloc::string::String::insert", "alloc::string::String::insert_str", "alloc::string::String::remove")
+
+
+def _units(e, depth=10):
+    """definite units carried by an integer expression: subset of {'B','C'}"""
+    from l4sa.core import strip
+    e = strip(e)
+    if not isinstance(e, tuple) or depth <= 0:
+        return set()
+    k = e[0]
+    if k == "call":
+        if e[1] in BYTE_SOURCES:
+            return {"B"}
+        nm = e[1].rsplit("::", 1)[-1]
+        if e[1] == "core::iter::traits::iterator::Iterator::count" and e[2]:
+            inner = strip(e[2][0])
+            from l4sa.core import walk as _walk
+            if any(x[0] == "call" and x[1] == "core::str::<impl str>::chars" for x in _walk(inner)) \
+                    and not any(x[0] == "call" and x[1].endswith("char_indices") for x in _walk(inner)):
+                return {"C"}
+            return set()
+        if nm in ("unwrap_or", "unwrap_or_else", "unwrap_or_default", "unwrap", "expect", "min", "max", "saturating_sub", "saturating_add", "checked_sub", "checked_add",
+                  "wrapping_sub", "wrapping_add", "map_or", "branch", "ok_or", "ok_or_else", "clamp"):
+            out = set()
+            for a in e[2]:
+                out |= _units(a, depth - 1)
+            return out
+        return set()
+    if k == "bin" and e[1].replace("WithOverflow", "").replace("Unchecked", "") in ("Add", "Sub"):
+        return _units(e[2], depth - 1) | _units(e[3], depth - 1)
+    if k in ("field", "as"):
+        return _units(e[1], depth - 1)
+    if k == "cast":
+        return _units(e[2], depth - 1)
+    if k == "phi":
+        out = set()
+        for a in e[1]:
+            out |= _units(a, depth - 1)
+        return out
+    return set()
+
+
+def rule_units(r, p, fns, floor=1):
+    """evaluate the byte/char discipline over the given functions under rule recorder r"""
+    from l4sa.core import walk, show
+    n = 0
+    for f in fns:
+        for c in f.calls():
+            nm = (c.decl or c.callee or "")
+            short = nm.rsplit("::", 1)[-1]
+            tys = c.t.get("arg_tys", [])
+            recv_ty = tys[0] if tys else ""
+            if nm.startswith("core::iter::traits::iterator::Iterator::") and short in CHAR_STEPPERS and ("str::iter::Chars" in recv_ty or "CharIndices" in recv_ty):
+                n += 1
+                u = _units(c.arg(1)) if len(c.args) > 1 else set()
+                r.require("B" not in u, "chars-stepped-by-chars:%s/%s" % (f.path.rsplit("::", 1)[-1], role(c)), fn=f, site=c.at,
+                          detail="%s(%s) on %s" % (short, show(c.arg(1), 4) if len(c.args) > 1 else "", recv_ty[-60:]),
+                          fail_detail="a character iterator is advanced by a byte quantity: %s(%s) — for text containing multi-byte characters the cursor overshoots and the following pattern text is swallowed or misparsed" % (short, show(c.arg(1), 5)))
+            elif nm == "core::ops::index::Index::index" and recv_ty.replace("&mut ", "&").strip() in ("&str", "&alloc::string::String") and len(c.args) > 1:
+                n += 1
+                u = set()
+                for x in walk(c.arg(1)):
+                    if x[0] == "agg" and "range::Range" in x[1]:
+                        for nm2, v in x[3]:
+                            u |= _units(v)
+                r.require("C" not in u, "str-indexed-by-bytes:%s/%s" % (f.path.rsplit("::", 1)[-1], role(c)), fn=f, site=c.at,
+                          detail="index %s" % show(c.arg(1), 4),
+                          fail_detail="a str is sliced with a character count: %s" % show(c.arg(1), 5))
+            elif nm in BYTE_SINKS and len(c.args) > 1:
+                n += 1
+                u = _units(c.arg(1))
+                r.require("C" not in u, "byte-offset-argument:%s/%s" % (f.path.rsplit("::", 1)[-1], role(c)), fn=f, site=c.at, detail="%s(%s)" % (short, show(c.arg(1), 4)),
+                          fail_detail="%s takes a byte offset but receives a character count: %s" % (short, show(c.arg(1), 5)))
+    r.floor("unit-sensitive-sites", n, floor)
+    return n
